@@ -381,10 +381,13 @@ func (w *World) everyTXIDOracle(rc *Recorder, logical bool) {
 				}
 			}
 			os.RemoveAll(no9)
-			if len(ia) != len(ib) {
-				culprit += ":size-differs"
+			if w.concurrentWriter {
+				// schedule-dependent history with a real concurrent writer: the live form of F9
+				culprit += ":live-concurrent-writer"
+			} else if len(ia) != len(ib) {
+				culprit += ":deterministic:size-differs"
 			} else {
-				culprit += ":same-size"
+				culprit += ":deterministic:same-size"
 			}
 			rc.violate("C02/txid-state-depends-on-plan:"+culprit, fmt.Sprintf("TXID %d restored with all levels differs from the level-0 chain on pages %v (a mixture of commits); without the level-9 files the restore %s", t, trunc(d, 12),
 				map[string]string{"level9": "equals the level-0 chain", "compact": "still differs", "unattri": "could not be evaluated"}[culprit[:7]])+w.l0Summary(), w)
@@ -432,6 +435,7 @@ func runC02(rc *Recorder, dir string, rng *rand.Rand, steps int) error {
 	if err := w.ldb.Open(); err != nil {
 		return err
 	}
+	w.concurrentWriter = true
 	w.trace = append(w.trace, "C02 concurrent writer; litestream ops:")
 	var wg sync.WaitGroup
 	stop := make(chan struct{})
